@@ -31,6 +31,27 @@ var engineAssumptions = []string{
 
 var checks = []Check{
 	{
+		ID: "C06", Title: "TCP: connections go only to current healthy hosts, per the balancing policy", Level: "model_checking",
+		LevelText: "all schedules (P<=3/4, delays unbounded) of 2-3 threads picking n*k times from 1-3 hosts through the real round-robin balancer; every random outcome and every connection-count assignment for random and least-connection; every history up to depth 3/4 of add / remove (fresh host objects, as the controller builds them) / replace / health marks / connect / disconnect on the real TCP processor under the three policies with every random outcome; a connection arrival racing a membership or health change under all schedules within bounds",
+		Technique: "preemption-bounded schedule exploration + exhaustive history enumeration on the real TCP processor under a controlled scheduler",
+		Assumptions: engineAssumptions,
+		Jobs: []Job{
+			{Pkg: "proc/internal/lb", Scenarios: []string{"C06/round-robin", "C06/random-leastconn"}, Shards: 4, QuickS: 60, ThoroughS: 300},
+			{Pkg: "proc/tcp", Scenarios: []string{"C06/histories"}, Shards: 16, QuickS: 90, ThoroughS: 900},
+			{Pkg: "proc/tcp", Scenarios: []string{"C06/race"}, Shards: 16, QuickS: 60, ThoroughS: 600},
+		},
+	},
+	{
+		ID: "C05", Title: "TCP: bytes relayed unmodified, in order, both ways, with half-close", Level: "model_checking",
+		LevelText: "stateless exploration of all schedules within bounds of the real HandleConn/pipeConn relay on a virtual network: stream lengths around the 16 KiB copy buffer in both directions, three writer chunkings, four finishing orders (client half-closes first, backend first, both, client full close), copy buffer shrunk to 8 bytes, two connections sharing the buffer pool; read sizes as environment deviations in the thorough tier",
+		Technique: "preemption/delay-bounded stateless schedule exploration of the real relay goroutines with input enumeration",
+		Assumptions: append([]string{"vnet models orderly close, half-close and reset; kernel behaviours such as RST on close with unread data or partial writes are outside the model"}, engineAssumptions...),
+		Jobs: []Job{
+			{Pkg: "proc/tcp", Scenarios: []string{"C05/relay"}, Shards: 16, QuickS: 90, ThoroughS: 900},
+			{Pkg: "proc/tcp", Scenarios: []string{"C05/two-connections"}, Shards: 8, QuickS: 60, ThoroughS: 300},
+		},
+	},
+	{
 		ID: "C09", Title: "listeners: stop and drain always complete and release what they hold", Level: "model_checking",
 		LevelText: "stateless exploration of all schedules within bounds of the real listener on a virtual network: Serve with a bind that fails 0/1/always times, a Stop / Drain / Drain+Stop caller at every point of the listener's life, 0-2 clients, connection limit 0/1; plus arrival patterns against a limit; plus stop of the real Redis and TCP processors with idle, in-flight, silent and closed backends",
 		Technique: "preemption/delay-bounded stateless schedule exploration of the real goroutines under a controlled scheduler with virtual time and network",
